@@ -19,6 +19,7 @@ git -C $WT checkout -q --detach $(git -C /repo rev-parse HEAD)
 git -C $WT checkout -q -- . && git -C $WT clean -fdq -e target
 if [ -n "$MUTCMD" ]; then (cd $WT && sh -c "$MUTCMD"); else git -C $WT apply "$PATCH"; fi
 git -C $WT diff --stat | tail -1
+[ -f $WT/Cargo.lock ] || cp /repo/Cargo.lock $WT/Cargo.lock
 mkdir -p $MV
 rsync -a --delete --exclude .git --exclude .build --exclude 'lean/.lake' --exclude replays --exclude evidence /verif/ $MV/
 sed -i "s#/repo/crates#$WT/crates#g" $MV/harness/Cargo.toml
